@@ -32,6 +32,8 @@ def evalref(O, v, t):
         return getattr(v, t[1])
     if k == 'const':
         return float(t[1])
+    if k == 'lit':
+        return t[1]
     if k == 'par':
         return evalref(O, v, t[1])
     if k == 'un':
